@@ -58,6 +58,14 @@ STRENGTHENED = [
     ("seeded/C17-e", "a positional argument of a method-form operator call that is directly another method-form operator call (stale argument snapshot)", "C17: the seed of Aggregate is an arbitrary int expression (often directly Count / Sum of a sequence, in either form); three more exhaustive positions (operator call directly as argument of a method-form / function-form / chained operator call)"),
     ("seeded/C03-f", "source text of one-line defs memoised per (module, qualified name): a helper re-defined later in the file gets the first version's source", "C03 families: a one-line def re-defined under the same name (module level and inside a function, the old version optionally used again through a saved reference); same-named one-line defs in both arms of an if inside a builder that is called several times"),
     ("seeded/C01-f", "identity SelectMany (a flatten) elided like an identity Select", "typed model: Evt.groups() is a sequence of sequences, so element variables of sequence type exist and SelectMany(src, lambda g: g) / First over nested sequences are generated (C01, C02, C14, C18)"),
+    ("seeded/C08-f", "arithmetic of two bool operands typed bool instead of int (promotion table with bool as lowest rank)", "C08 arithmetic: operands may be bool (comparisons, and/or results, True / False), operators // and % added; bool counts as int"),
+    ("seeded/C15-f", "wrappers in default values of lambda parameters are skipped (traversal does not enter the `arguments` helper node)", "C15 grammar: lambdas with a defaulted second parameter (positional / keyword-only) whose default contains wrappers, plus conditionals, subscripts, slices, starred / callee positions, unary / boolean operands and the look-alike method obj.MetaData(x, {})"),
+    ("seeded/C13-f", "textual post-processing of the rendered container rewrites the word inf inside nested strings", "C13 code-like text: words that mean something to python or to a number parser (inf, nan, None, True, lambda, 1e999, 0x1F, escapes, format fields) glued with blanks, brackets, quotes and operators; also as bytes"),
+    ("seeded/C07-f", "keyword-only / positional-only parameters of a typed signature are skipped", "C07 signatures: in a quarter of the signatures the first parameters are positional-only and / or the last ones keyword-only (defaults need not be trailing); call shapes respect python's rules for them; the reference binder (inspect) needs no change"),
+    ("seeded/C10-f", "a lambda given as text is whitespace-normalised before parsing (also inside string literals)", "untyped grammar (C10, C20): string constants and dictionary keys with runs of blanks and literal tabs inside the quotes"),
+    ("seeded/C09-f", "dictionaries whose keys are not identifiers are returned before their values are visited", "C09 dictionary results with keys that are not identifiers (blanks, keywords, empty, dashes, repeated)"),
+    ("seeded/C11-f", "an override executor is cached as an annotation on the executed stream's top node, which descendants share (dump and item type unchanged)", "C11 snapshots include where the executor / dataset references sit on the nodes of every stream and what they refer to (C12 catches the change unchanged)"),
+    ("seeded/C14-f", "dictionary literals keyed by non-negative integers are no longer resolved", "typed generator: dictionaries keyed by integers, written in an order that is not the positional one ({1: a, 0: b}[0])"),
     ("seeded/C08-c", "generic subclass with more type parameters than its base uses", "C08 skeleton: Tag(Box[K], Generic[K,V]), Tag2(Box[V], ...), Swap(Pair[U,T], ...), HalfPair(Pair[T,int]), It2(Iterable[V], ...), TagInts(Tag[int,V]); class names taken from typing. This extension also exposed the genuine defects D29 and D30"),
 ]
 
